@@ -73,21 +73,19 @@ func cause(v c16.SetView) string {
 	if len(v.Keys) == 1 && v.Keys[0].Ty == uint64(keypair.PK_ETHECDSA) {
 		return "signers:ethereum-key"
 	}
-	// a script that is exactly what the builders write must not disagree (c17_signers_agree_partial)
+	// decided by the harness's own encoder of the STANDARD script (c16.SpecSingleScript /
+	// SpecMultiScript), never by the node's builder: a standard witness must not disagree
+	// (c17_signers_agree_partial), whatever the node's builder writes
 	var canon []byte
 	hx.Recover(func() {
 		if len(v.Keys) == 1 {
-			canon = program.ProgramFromPubKey(v.Keys[0].Pub)
+			canon = c16.SpecSingleScript(v.Keys[0])
 		} else {
-			var pubs []keypair.PublicKey
-			for _, k := range v.Keys {
-				pubs = append(pubs, k.Pub)
-			}
-			canon, _ = program.ProgramFromMultiPubKey(pubs, v.M)
+			canon = c16.SpecMultiScript(v.M, v.Keys)
 		}
 	})
 	if bytes.Equal(canon, v.Raw.Verify) {
-		return "signers:canonical-script-disagrees"
+		return "signers:canonical-witness-disagree"
 	}
 	// the key strings as pushed, read independently of the implementation's parser
 	raw := v.Raw.Verify
@@ -119,13 +117,8 @@ func cause(v c16.SetView) string {
 		}
 	}
 	if len(v.Keys) > 1 {
-		var pubs []keypair.PublicKey
-		for _, k := range v.Keys {
-			pubs = append(pubs, k.Pub)
-		}
-		sorted := keypair.SortPublicKeys(append([]keypair.PublicKey{}, pubs...))
-		for i := range sorted {
-			if !bytes.Equal(keypair.SerializePublicKey(sorted[i]), v.Keys[i].Ser) {
+		for i, k := range c16.SpecSorted(v.Keys) {
+			if !bytes.Equal(k.Ser, v.Keys[i].Ser) {
 				return "signers:unsorted-multisig"
 			}
 		}
@@ -133,22 +126,12 @@ func cause(v c16.SetView) string {
 	return "signers:noncanonical-push"
 }
 
+// setAddress: the standard account of the (keys, M) pair in the script (spec-level).
 func setAddress(v c16.SetView) (a common.Address, ok bool) {
-	hx.Recover(func() {
-		if len(v.Keys) == 1 {
-			a, ok = types.AddressFromPubKey(v.Keys[0].Pub), true
-			return
-		}
-		var pubs []keypair.PublicKey
-		for _, k := range v.Keys {
-			pubs = append(pubs, k.Pub)
-		}
-		x, err := types.AddressFromMultiPubKeys(pubs, v.M)
-		if err == nil {
-			a, ok = x, true
-		}
-	})
-	return
+	if !v.Parsed {
+		return a, false
+	}
+	return c16.SpecAddress(v.Keys, v.M)
 }
 
 func (r *drv) after(in c16.Input, raw []byte, o c16.Outcome, tables string, hashCoq string, views []c16.SetView) {
@@ -158,11 +141,11 @@ func (r *drv) after(in c16.Input, raw []byte, o c16.Outcome, tables string, hash
 	if err != nil {
 		return
 	}
-	if !o.Accepted && !o.Panicked && c.Intn(4) != 0 {
-		return // the property speaks of accepted transactions; keep a sample of the others for the tie
-	}
 	if in.Expect == "accept" && !o.Accepted && !o.Panicked {
 		c.Fail("valid-rejected:"+in.Kind, "a correctly signed transaction paid by a signer was rejected", in, o.Class, "accepted")
+	}
+	if !o.Accepted && !o.Panicked && c.Intn(4) != 0 {
+		return // the property speaks of accepted transactions; keep a sample of the others for the tie
 	}
 	c.Eval()
 	var fb []common.Address
@@ -225,7 +208,14 @@ func (r *drv) after(in c16.Input, raw []byte, o c16.Outcome, tables string, hash
 				c.Fail(cl, "the accounts contract code sees on a node that only decoded the transaction differ from the signer set the validator established",
 					in, map[string]interface{}{"validated": addrHex(validated), "fresh_decode": addrHex(fb)}, "equal sets")
 			}
-			if len(seen) == 0 {
+			allStd := true
+			for _, v := range views {
+				allStd = allStd && v.Parsed && cause(v) == "signers:canonical-witness-disagree"
+			}
+			if len(seen) == 0 && allStd {
+				c.Fail("signers:canonical-witness-disagree", "every verification script is the standard script of its key set, yet the validator's signer set differs from the fresh decode's", in,
+					map[string]interface{}{"validated": addrHex(validated), "fresh_decode": addrHex(fb)}, "equal sets")
+			} else if len(seen) == 0 {
 				c.Fail("signers:other", "the two signer sets differ although every set's address equals the fallback's", in,
 					map[string]interface{}{"validated": addrHex(validated), "fresh_decode": addrHex(fb)}, "equal sets")
 			}
@@ -310,11 +300,7 @@ func (r *drv) families() {
 		// sorted m-of-n with the key count pushed as a byte string (big-endian, leading zeros allowed)
 		nk := 2 + c.Intn(3)
 		keys := d.PickKeys(nk)
-		pubs := make([]keypair.PublicKey, nk)
-		for j, x := range keys {
-			pubs[j] = x.Pub
-		}
-		pubs = keypair.SortPublicKeys(pubs)
+		sorted := c16.SpecSorted(keys)
 		m := 1 + c.Intn(nk)
 		cnt := []byte{byte(nk)}
 		if c.Intn(2) == 0 {
@@ -322,12 +308,98 @@ func (r *drv) families() {
 		}
 		s2 := script(func(b *program.ProgramBuilder) {
 			b.PushNum(uint16(m))
-			for _, p := range pubs {
-				b.PushBytes(keypair.SerializePublicKey(p))
+			for _, k := range sorted {
+				b.PushBytes(k.Ser)
 			}
 			b.PushBytes(cnt).PushOpCode(neovm.CHECKMULTISIG)
 		})
 		one("noncanonical-push:count-as-bytes", &c16.SetPlan{Keys: keys, M: m, Signers: append([]*c16.Key{}, keys[:m]...), Script: s2})
+	}
+}
+
+func (r *drv) standard() {
+	d, c := r.d, r.c
+	for n := 2; n <= 16; n++ {
+		ms := []int{1, n/2 + 1, n - 1, n}
+		if c.Quick() && n != 2 && n != 3 && n != 8 && n != 15 && n != 16 {
+			ms = []int{1 + c.Intn(n)}
+		}
+		seen := map[int]bool{}
+		for i, m := range ms {
+			if m < 1 || m > n || seen[m] {
+				continue
+			}
+			seen[m] = true
+			keys := d.PickKeys(n)
+			c.Rng.Shuffle(n, func(a, b int) { keys[a], keys[b] = keys[b], keys[a] })
+			perm := c.Rng.Perm(n)
+			var signers []*c16.Key
+			for _, x := range perm[:m] {
+				signers = append(signers, keys[x])
+			}
+			pl := &c16.Plan{U: d.RandUnsigned(), Sets: []*c16.SetPlan{{Keys: keys, M: m, Signers: signers}}}
+			payer := "multisig"
+			if (i+n)%2 == 0 {
+				k := d.PickKeys(1)
+				pl.Sets = append(pl.Sets, &c16.SetPlan{Keys: k, M: 1, Signers: k})
+				pl.PayerSet = 1
+				payer = "single"
+			}
+			d.One(fmt.Sprintf("standard:%d-of-%d:payer-%s", m, n, payer), pl, "accept")
+		}
+	}
+}
+
+// builders records the node's own encoder and address function for 1, 2, 15 and 16 keys
+// (tied cases CBuildMulti / CAddrMulti) and checks them against the standard encoding.
+func (r *drv) builders() {
+	d, c := r.d, r.c
+	w := d.W
+	for _, n := range []int{1, 2, 15, 16} {
+		for _, m := range []int{1, n - 1, n} {
+			if m < 1 {
+				continue
+			}
+			keys := d.PickKeys(n)
+			var pubs []keypair.PublicKey
+			for _, k := range keys {
+				pubs = append(pubs, k.Pub)
+			}
+			in := map[string]interface{}{"kind": "builder", "n": n, "m": m}
+			c.Eval()
+			var prog []byte
+			var err error
+			if p, msg := hx.Recover(func() { prog, err = program.ProgramFromMultiPubKey(append([]keypair.PublicKey{}, pubs...), m) }); p {
+				c.Fail("panic:ProgramFromMultiPubKey", "the builder panicked", in, msg, nil)
+				continue
+			}
+			w.P.BeginCase()
+			out := "BErrParam"
+			if err == nil {
+				out = "(BOk " + w.P.CB(prog) + ")"
+				if std := c16.SpecMultiScript(m, keys); !bytes.Equal(prog, std) {
+					c.Fail("builder-not-standard", "ProgramFromMultiPubKey does not write the standard m-of-n script", in, hx.Hex(prog), hx.Hex(std))
+				}
+			}
+			c.Case(fmt.Sprintf("CBuildMulti %s %s %s", w.P.CoqKeys(keys), hx.CoqZ(int64(m)), out), in)
+			c.Eval()
+			var addr common.Address
+			if p, msg := hx.Recover(func() { addr, err = types.AddressFromMultiPubKeys(append([]keypair.PublicKey{}, pubs...), m) }); p {
+				c.Fail("panic:AddressFromMultiPubKeys", "the address function panicked", in, msg, nil)
+				continue
+			}
+			res, htab := "AErrParam", "[]"
+			if err == nil {
+				res = "(AOk " + hx.CoqBytes(addr[:]) + ")"
+				std := c16.SpecMultiScript(m, keys)
+				htab = fmt.Sprintf("[(%s, %s)]", w.P.CB(std), hx.CoqBytes(c16.Hash160(std)))
+				if want, _ := c16.SpecAddress(keys, m); want != addr {
+					c.Fail("address-not-standard", "AddressFromMultiPubKeys is not the hash of the standard m-of-n script", in, addr.ToHexString(), want.ToHexString())
+				}
+			}
+			c.Case(fmt.Sprintf("CAddrMulti %s %s %s %s", w.P.CoqKeys(keys), hx.CoqZ(int64(m)), htab, res), in)
+			c.Nontrivial(fmt.Sprintf("b%d-%d", n, m))
+		}
 	}
 }
 
@@ -366,6 +438,10 @@ func Run(c *hx.Ctx) {
 	for i, n := 0, c.N(40, 400); i < n; i++ {
 		d.One("random-plan", d.RandPlan(1+c.Intn(4), 2+c.Intn(6)), "accept")
 	}
+	// STANDARD witnesses written by the harness's own encoder: every n in 2..16 (15 and 16 with
+	// every listed m), threshold 1, middle, n-1, n; paid by a separate single key or by the set
+	r.standard()
+	r.builders()
 	// canonical over-signed sets (more signatures than M): the account is that of (keys, M)
 	d.OverSigned(1)
 	// the families in which the two derivations differ
